@@ -492,26 +492,51 @@ Definition queries_ok (tbl : list (string * string * option bool)) (rules : list
                         | _ => true end)%bool) rules.
 (* one sub-case: rules, today, expected text (or none), expected load, regex table,
    transactions with (legacy-expression answers, expected legacy result, expected migrated result) *)
-Definition check (c : list csv_rule * Z * option string * eload * list (string * string * option bool)
-                      * list (txn * list (string * option bool) * xres * xres)) : list nat :=
+Definition case_t : Type := (list csv_rule * Z * option string * eload * list (string * string * option bool)
+                      * list (txn * list (string * option bool) * xres * xres))%type.
+Definition check (c : case_t) : list nat :=
   let '(rules, today, text, xl, tbl, txs) := c in
   let re := tbl_search tbl in
-  (match text with Some s => if String.eqb (gen_content rules) s then [] else [1%nat] | None => [] end)
-  ++ (if load_ok rules xl then [] else [2%nat])
-  ++ flat_map (fun '(t, lx, xleg, xmig) =>
-        (if queries_ok tbl rules t then [] else [3%nat])
-        ++ (if res_ok (legacy_classify re (fun p _ => assoc p lx) today rules t) xleg then [] else [4%nat])
-        ++ (match load_all rules with
+  app (match text with Some s => if String.eqb (gen_content rules) s then [] else [1%nat] | None => [] end)
+  (app (if load_ok rules xl then [] else [2%nat])
+  (flat_map (fun '(t, lx, xleg, xmig) =>
+        app (if queries_ok tbl rules t then [] else [3%nat])
+        (app (if res_ok (legacy_classify re (fun p _ => assoc p lx) today rules t) xleg then [] else [4%nat])
+            (match load_all rules with
             | LOk ers => if res_ok (engine_classify re ers t) xmig then [] else [5%nat]
             | _ => []
-            end)) txs.
-Fixpoint failing (i : nat) (l : list _) : list (nat * list nat) :=
+            end))) txs)).
+Fixpoint failing (i : nat) (l : list case_t) : list (nat * list nat) :=
   match l with [] => [] | c :: r => match check c with [] => failing (S i) r | e => (i, e) :: failing (S i) r end end.
 '''
 
 
 def z(n):
     return f'({n})' if n < 0 else str(n)
+
+
+def cstr(s):
+    """Coq string term for arbitrary text: printable ASCII and newlines literally, other bytes through sbytes."""
+    bs = s.encode('utf-8')
+    if all(32 <= c < 127 or c == 10 for c in bs):
+        return '"' + bs.decode('ascii').replace('"', '""') + '"'
+    parts, cur, odd = [], bytearray(), []
+    for c in bs:
+        if 32 <= c < 127 or c == 10:
+            if odd:
+                parts.append('sbytes [' + ';'.join(str(x) for x in odd) + ']%N')
+                odd = []
+            cur.append(c)
+        else:
+            if cur:
+                parts.append('"' + cur.decode('ascii').replace('"', '""') + '"')
+                cur = bytearray()
+            odd.append(c)
+    if odd:
+        parts.append('sbytes [' + ';'.join(str(x) for x in odd) + ']%N')
+    if cur:
+        parts.append('"' + cur.decode('ascii').replace('"', '""') + '"')
+    return '(' + ' ++ '.join(parts) + ')'
 
 
 def units(s):
@@ -652,7 +677,7 @@ def coq_subcase(sub, txns, today, tabs_src, stats):
             if isinstance(v, str):
                 raise Skip('re-crash')
             tbl.append(f'({coq_str(p)}, {coq_str(text)}, {coq_opt_bool(v)})')
-    text = f'(Some {coq_str(sub["content"])})'
+    text = f'(Some {cstr(sub["content"])})'
     return (f'([{"; ".join(rules)}], {today}%Z, {text}, {xl}, [{"; ".join(tbl)}], [{"; ".join(txs)}])', len(txs))
 
 
@@ -692,7 +717,9 @@ def model_check(cases, results, today, stats, chunk=120):
             stats['model_txn_evals'] = stats.get('model_txn_evals', 0) + ntx
     jobs = []
     for off in range(0, len(terms), chunk):
-        body = 'Definition cases := [\n' + ';\n'.join(terms[off:off + chunk]) + '\n].\nEval vm_compute in failing 0 cases.\n'
+        part = terms[off:off + chunk]
+        body = ''.join(f'Definition c{i} : case_t :=\n{t}.\n' for i, t in enumerate(part))
+        body += 'Definition cases : list case_t := [' + '; '.join(f'c{i}' for i in range(len(part))) + '].\nEval vm_compute in failing 0 cases.\n'
         jobs.append((f'C14_{off // chunk}', body))
     bad = []
     with ThreadPoolExecutor(max_workers=4) as ex:
